@@ -1,6 +1,7 @@
 package redisemu
 
 import (
+	"math"
 	"strings"
 	"time"
 )
@@ -106,6 +107,11 @@ func fnExpireAt(ctx *cmdContext, args map[string]any) (output respValue, err err
 	_, gt := args["condition.gt"]
 	_, lt := args["condition.lt"]
 
+	if ttl > math.MaxInt64/1000 {
+		// not a point in time that milliseconds can express (the value wrapped into the past)
+		output.data = respErrorString("ERR invalid expire time in 'expireat' command")
+		return
+	}
 	expiration := time.Unix(ttl, 0)
 
 	output = ctx.dsc.expire(keyName, expiration, nx, xx, gt, lt)
